@@ -95,7 +95,7 @@ def asan_matrix(ctx, job):
             facts.append(("valid module '%s' with options [%s]: exit status 0, no crash, no sanitizer report" % (mname, " ".join(opts)), r.returncode == 0 and not bad,
                           "rc=%d %s module_hex=%s" % (r.returncode, err[-400:], data.hex()[:400])))
     # truncation: every proper prefix of two modules, plain and with -g
-    for mname, m in (mods[0], mods[5]) if quick else mods:
+    for mname, m in (mods[0], mods[5], mods[7]) if quick else mods:     # quick: control flow, partial names, every name subsection
         data = m.encode()
         for opts in ([], ["-g"]):
             badk = []
@@ -152,7 +152,7 @@ def make_jobs(ctx):
     jobs.append(ejob(ctx, "M.chdir", "c20_files.c", "h_chdir", ["main.c:changeToOutputDirectory"], defines=["H_CHDIR", "HAS_LIBGEN=0"], flags=["--unwind", "20", "--unwinding-assertions"],
                      bounded="output paths <= 8 characters"))
     b = Job("B.asan_option_truncation_matrix", src=None, solver="static", funcs=["w2c2 binary built with ASan+UBSan: main.c, reader.c, c.c, ..."],
-            bounded="7 corpus modules x 9-11 option sets; every truncation point of 2 (quick) / all (thorough) modules, with and without -g",
+            bounded="9 corpus modules x 9-11 option sets; every truncation point of 3 (quick) / all (thorough) modules, with and without -g",
             info=dict(layer="bounded corroboration on the real binary under AddressSanitizer/UBSan (also the replay vehicle)"))
     b.static_fn = asan_matrix
     jobs.append(b)
